@@ -69,18 +69,7 @@ def r2(ctx, prog):
     R = ctx.rule("C10.R2", "absorb: queues 0..MI_BIN_FULL appended ≺ _mi_heap_delayed_free_all(from) ≺ mi_heap_reset_pages(from)")
     f = prog.fn("mi_heap_absorb")
     cfg = f.cfg
-    full = prog.const("MI_BIN_FULL")
-    loops = [n for n in f.all(kind="ForStmt")]
-    ok = False
-    for l in loops:
-        cond = f.nodes[l].get("cond")
-        if cond is None:
-            continue
-        c = rl.cmp_parts(f, cond)
-        if c and ((c[0] == "<=" and f.cv(c[2]) == full) or (c[0] == "<" and f.cv(c[2]) == full + 1)):
-            if any(rl.is_call(f, x, "_mi_page_queue_append") for x in f.walk(f.nodes[l]["body"])):
-                ok = True
-    ctx.check(R, ok, f.where(), "the append loop covers bins 0..MI_BIN_FULL (=%d) inclusive" % full, key="C10.R2:bound")
+    shared.absorb_covers_all_queues(ctx, R, prog)
     apps = list(f.calls("_mi_page_queue_append"))
     for c in f.calls("_mi_heap_delayed_free_all"):
         later = [a for a in apps if cfg.reaches(cfg.after(c), cfg.pt(a))]
